@@ -1110,6 +1110,14 @@ func (m *Nitro) LoadFromDisk(dir string, concurr int, callb ItemCallback) (*Snap
 		return nil, err
 	}
 
+	// A recorded checksum of 0 means "not checked" only for the old format
+	// version: the xor of item CRCs of an intact shard can well be 0 (e.g.
+	// four equal-length keys k0..k3), and such a shard must be verified too.
+	var verify, verifyDelta bool
+	checksumFailed := func(expected, actual uint32) bool {
+		return (version > 0 || expected != 0) && expected != actual
+	}
+
 	if bs, err := ioutil.ReadFile(filepath.Join(datadir, "checksums.json")); err == nil {
 		if err = json.Unmarshal(bs, &checksums); err != nil {
 			return nil, err
@@ -1117,6 +1125,7 @@ func (m *Nitro) LoadFromDisk(dir string, concurr int, callb ItemCallback) (*Snap
 		if len(checksums) != len(files) {
 			return nil, ErrCorruptSnapshot
 		}
+		verify = true
 	} else {
 		checksums = make([]uint32, len(files))
 	}
@@ -1187,7 +1196,7 @@ func (m *Nitro) LoadFromDisk(dir string, concurr int, callb ItemCallback) (*Snap
 	close(wchan)
 	wg.Wait()
 	for i, rdr := range readers {
-		if checksums[i] != 0 && checksums[i] != rdr.Checksum() {
+		if verify && checksumFailed(checksums[i], rdr.Checksum()) {
 			return nil, ErrCorruptSnapshot
 		}
 	}
@@ -1238,6 +1247,7 @@ func (m *Nitro) LoadFromDisk(dir string, concurr int, callb ItemCallback) (*Snap
 			if len(deltaChecksums) != len(files) {
 				return nil, ErrCorruptSnapshot
 			}
+			verifyDelta = true
 		}
 
 		defer func() {
@@ -1283,8 +1293,8 @@ func (m *Nitro) LoadFromDisk(dir string, concurr int, callb ItemCallback) (*Snap
 
 					// Inserting hands the item bytes to the key comparator:
 					// verify the shard first, never compare unverified data.
-					if errors[shard] == nil && deltaChecksums[shard] != 0 &&
-						deltaChecksums[shard] != r.Checksum() {
+					if errors[shard] == nil && verifyDelta &&
+						checksumFailed(deltaChecksums[shard], r.Checksum()) {
 						errors[shard] = ErrCorruptSnapshot
 					}
 
@@ -1324,7 +1334,7 @@ func (m *Nitro) LoadFromDisk(dir string, concurr int, callb ItemCallback) (*Snap
 		wg.Wait()
 
 		for i, rdr := range readers {
-			if deltaChecksums[i] != 0 && deltaChecksums[i] != rdr.Checksum() {
+			if verifyDelta && checksumFailed(deltaChecksums[i], rdr.Checksum()) {
 				return nil, ErrCorruptSnapshot
 			}
 		}
